@@ -120,7 +120,8 @@ def selectVars (names : Option (List String)) (vars : Option (List (String × V)
   match names, vars with
   | some ns, some m => some (stepVars ns m)      -- getVariables builds a fresh (non-nil) map
   | some _, none => some []
-  | none, v => v
+  | none, some m => some m                       -- all variables, copied into a fresh map
+  | none, none => some []
 
 /-- steps run one after the other on the same client requests -/
 def runSteps : List (Option (List String)) → List Req → List Nat → List Json
